@@ -52,7 +52,7 @@ pub fn generate(prop: &str, seed: u64, idx: u64, tier: Tier) -> Plan {
     }
     p.knobs.insert("point".into(), point as i64);
     // signaling is not instantaneous: the offer and the answer take time, and so does the answering application
-    p.knobs.insert("sig_delay_ms".into(), *r.pick(&[0i64, 0, 1, 5, 30, 200]));
+    p.knobs.insert("sig_delay_ms".into(), *r.pick(&[0i64, 0, 1, 5, 30, 200, 1000, 3000]));
     p.latency_us = [r.range(200, 40_000), r.range(200, 40_000)];
     p.sched = Sched { rng_seed: r.next(), defer_pct: if r.chance(60) { 0 } else { r.range(1, 30) as u8 } };
     p.heal_at_ms = 0;
